@@ -48,6 +48,8 @@ def static_ops():
     ops.append(('add', 0, 'm1', 'cbraise', True))
     # a callback that itself makes a client call (to m1 on the same endpoint) which the same mocker answers
     ops.append(('add', 0, 'm0', 'cbnested', False))
+    # ... and one that calls the SAME method again (once: the nested delivery is answered by whatever patch is next in turn)
+    ops.append(('add', 0, 'm0', 'cbsame', False))
     for e in (0, 1):
         for m in METHODS:
             ops.append(('call', e, m, 'pos'))
@@ -72,6 +74,10 @@ def enabled_ops(state):
     ops = list(STATIC)
     for e in (0, 1):
         ep = state.get(e, {})
+        if not ep:
+            # a document the mocker's own parser would refuse (a batch without elements), sent to an endpoint WITHOUT patches:
+            # not the mocker's business - passed through / refused like anything else
+            ops.append(('emptybatch', e))
         if ep:
             ops.append(('remove_ep', e))
         for m, lst in ep.items():
@@ -100,7 +106,7 @@ def ref_apply(state, calls, op, n, passthrough):
             if not st[e]:
                 del st[e]
 
-    def answer(e, m, args):
+    def answer(e, m, args, depth=0):
         """one call on an endpoint that had patches on arrival"""
         lst = st.get(e, {}).get(m)
         if not lst:
@@ -118,6 +124,16 @@ def ref_apply(state, calls, op, n, passthrough):
             return ('error', 1000 + pn, err_view(pn))
         if pk == 'cbraise':
             return ('exc', 'RuntimeError', 'cbraise %d' % pn)
+        if pk == 'cbsame':
+            if depth >= 1:
+                return ('result', ['same%d' % pn, ['leaf']])
+            if not st.get(e):
+                inner = ('passthrough',) if passthrough else ('refused',)
+            else:
+                inner = answer(e, 'm0', ('pos', [pn]), depth + 1)
+                if inner[0] == 'exc':
+                    return inner
+            return ('result', ['same%d' % pn, list(inner)])
         if pk == 'cbnested':
             if not st.get(e):
                 inner = ('passthrough',) if passthrough else ('refused',)
@@ -147,6 +163,8 @@ def ref_apply(state, calls, op, n, passthrough):
         return st, cl, None
     e = op[1]
     if not st.get(e):
+        if kind == 'emptybatch' and passthrough:
+            return st, cl, ('notified',)          # nothing in it expects an answer
         if kind == 'notify' and passthrough:
             return st, cl, ('notified',)          # the real transport answers a notification with nothing
         return st, cl, ('passthrough',) if passthrough else ('refused',)
@@ -252,11 +270,26 @@ class Watchdog:
         return False
 
 
-def make_nested_cb(n, kind, cls, e):
+_DEPTH = [0]
+
+
+def make_nested_cb(n, kind, cls, e, same=False):
     def cb(*args, **kwargs):
+        if same:
+            if _DEPTH[0] >= 1:
+                return ['same%d' % n, ['leaf']]
+            _DEPTH[0] += 1
+            try:
+                return nest()
+            finally:
+                _DEPTH[0] -= 1
+        return nest()
+
+    def nest():
         client = cls(EPS[e])
+        tag = 'same%d' % n if same else 'nested%d' % n
         try:
-            r = client.send(Request('m1', [n], id=99))
+            r = client.send(Request('m0' if same else 'm1', [n], id=99))
             if kind == 'async':
                 loop = VLoop()
                 try:
@@ -264,7 +297,7 @@ def make_nested_cb(n, kind, cls, e):
                 finally:
                     loop.close()
         except ConnectionRefusedError:
-            return ['nested%d' % n, ['refused']]
+            return [tag, ['refused']]
         if r.is_error:
             from pjrpc.common import UNSET as _U
             inner = ['notfound'] if r.error.code == -32601 else ['error', r.error.code, '<absent>' if r.error.data is _U else r.error.data]
@@ -272,7 +305,7 @@ def make_nested_cb(n, kind, cls, e):
             inner = ['passthrough']
         else:
             inner = ['result', r.result]
-        return ['nested%d' % n, inner]
+        return [tag, inner]
     return cb
 
 
@@ -282,7 +315,7 @@ def real_apply(kind, mocker, cls, op, n):
     if k == 'add':
         _, e, m, pk, once = op
         kw = dict(result='r%d' % n) if pk == 'result' else (dict(error=JsonRpcError(1000 + n, 'e%d' % n, data=err_data(n))) if pk == 'error' else
-                                                           dict(callback=make_raising_cb(n) if pk == 'cbraise' else (make_nested_cb(n, kind, cls, e) if pk == 'cbnested' else make_cb(n))))
+                                                           dict(callback=make_raising_cb(n) if pk == 'cbraise' else (make_nested_cb(n, kind, cls, e, same=(pk == 'cbsame')) if pk in ('cbnested', 'cbsame') else make_cb(n))))
         mocker.add(EPS[e], m, once=once, **kw)
         return None
     if k == 'replace':
@@ -352,6 +385,13 @@ def real_apply(kind, mocker, cls, op, n):
         if isinstance(r, tuple) and r and r[0] == 'exc':
             return r
         return ('notified',) if r is None else ('notify-returned', repr(r)[:80])
+    if k == 'emptybatch':
+        r = drive(lambda: client.batch.send(BatchRequest()))
+        if r == 'REFUSED':
+            return ('refused',)
+        if isinstance(r, tuple) and r and r[0] == 'exc':
+            return r
+        return ('notified',) if r is None else ('returned', repr(r)[:80])
     if k == 'batch':
         reqs = [Request(m, [n, i], id=10 + i) for i, m in enumerate(op[2])]
         r = drive(lambda: client.batch.send(BatchRequest(*reqs)))
